@@ -288,20 +288,26 @@ def minimise(case, test, seconds=20.0, max_tests=4000, op_variants=None, log=Non
             if attempt(cand):
                 case, changed = cand, True
             i -= 1
-        # 4. fewer context switches
+        # 4. fewer context switches: all at once, then chunks (ddmin), then singly
         if len(case.get("decisions", ())) > 0:
             cand = copy.deepcopy(case)
             cand["decisions"] = []
             if attempt(cand):
                 case, changed = cand, True
-        i = len(case.get("decisions", ())) - 1
-        while i >= 0 and b.ok():
-            cand = copy.deepcopy(case)
-            cand["decisions"] = [d for j, d in enumerate(case["decisions"]) if j != i]
-            if attempt(cand):
-                case, changed = cand, True
-            i -= 1
-            i = min(i, len(case["decisions"]) - 1)
+        dec = list(case.get("decisions", ()))
+        chunk = len(dec) // 2
+        while chunk >= 1 and b.ok():
+            i = 0
+            while i < len(dec) and b.ok():
+                cand_dec = dec[:i] + dec[i + chunk :]
+                cand = copy.deepcopy(case)
+                cand["decisions"] = cand_dec
+                if cand_dec != dec and attempt(cand):
+                    dec = cand_dec
+                    case, changed = cand, True
+                else:
+                    i += chunk
+            chunk = chunk // 2
         # 5. shrink operations' own arguments
         if op_variants is not None:
             for c in range(len(case["programs"])):
